@@ -72,6 +72,7 @@ class Ctx:
         self.assumptions = []
         self.extra = {}
         self.harness_bin = {}
+        self.driver_bin = {}
         self.checker_cmds = []
         self.known = load_known(pid)
         self.modelled = []
@@ -132,10 +133,16 @@ class Ctx:
                     rc3, out3 = sh(cmdc, cwd=LEAN, timeout=3600)
                     if rc3 != 0:
                         self.lean_problems.append("leanchecker rejected %s: %s" % (m, out3[-300:]))
-        for d in drivers:
-            p = os.path.join(LEAN, ".lake", "build", "bin", d)
-            if not os.path.exists(p):
-                self.lean_problems.append("driver %s was not built" % d)
+            # snapshot the drivers while the lock is held: a concurrent run against another working tree (VERIF_REPO) may
+            # regenerate Generated/*.lean and rebuild the shared binaries as soon as the lock is released
+            for d in drivers:
+                p = os.path.join(LEAN, ".lake", "build", "bin", d)
+                if not os.path.exists(p):
+                    self.lean_problems.append("driver %s was not built" % d)
+                    continue
+                snap = os.path.join(self.work, d)
+                shutil.copy2(p, snap)
+                self.driver_bin[d] = snap
 
     def _factgen(self):
         src = os.path.join(GO, "cmd", "factgen")
@@ -311,7 +318,7 @@ class Ctx:
         return outs[:len(lines)]
 
     def run_model(self, driver, lines, timeout=1800):
-        binp = os.path.join(LEAN, ".lake", "build", "bin", driver)
+        binp = self.driver_bin.get(driver) or os.path.join(LEAN, ".lake", "build", "bin", driver)
         if not os.path.exists(binp):
             return None
         inp = "\n".join(lines) + "\n" if lines else ""
